@@ -35,6 +35,9 @@ type Program struct {
 	DeclPkg   map[string]*packages.Package
 	RepoDir   string
 	Lemmas    []string
+
+	modeDepMu    sync.Mutex
+	modeDepCache map[*Clause]string
 }
 
 type Clause struct {
@@ -85,6 +88,7 @@ type Contract struct {
 	NoSafety   bool
 	Uninterp   bool // spec function treated as an uninterpreted function of its arguments
 	UnreachableOK string // non-empty: return sites proved unreachable are expected (reason)
+	Modeless    string // spec predicate declared to mean the same over machine and mathematical integers (assumption)
 	ReliableIO  bool // file operations do not fail for environmental reasons in this function (assumption)
 	AbstractMul bool // multiplication of two non-literals is an uninterpreted function in this function's obligations (sound: weaker)
 	NoOverflow bool // math mode: arithmetic of this function is assumed not to overflow (recorded as an assumption)
@@ -300,6 +304,16 @@ func (p *Program) readContractFile(pkg *packages.Package, file *ast.File, fname 
 	return nil
 }
 
+// rawDirective: text of a directive of the (possibly unbound) contract; ok=false if absent.
+func (c *Contract) rawDirective(kind string) (string, bool) {
+	for _, rc := range c.raw {
+		if rc.kind == kind {
+			return rc.text, true
+		}
+	}
+	return "", false
+}
+
 // BindError: the contract cannot be bound to the code (UNDECIDED, not a violation).
 type BindError struct{ Msg string }
 
@@ -356,6 +370,8 @@ func (p *Program) bind(c *Contract) error {
 			c.AbstractMul = true
 		case "reliable_io":
 			c.ReliableIO = true
+		case "modeless":
+			c.Modeless = rc.text
 		case "unreachable_ok":
 			c.UnreachableOK = rc.text
 			if c.UnreachableOK == "" {
